@@ -61,7 +61,7 @@ def replay_batch_main():
             mods[pid] = load_check(pid)
             if hasattr(mods[pid], 'setup'):
                 mods[pid].setup(False)
-        out.append(sxrun.run_concrete(mods[pid].run, item['structure'], item['values']))
+        out.append(sxrun.run_concrete(mods[pid].run, item['structure'], item['values'], item.get('hints', ())))
     json.dump(out, sys.stdout)
 
 
@@ -71,7 +71,7 @@ def replay_main(path):
     mod = load_check(item['property'])
     if hasattr(mod, 'setup'):
         mod.setup(False)
-    r = sxrun.run_concrete(mod.run, item['structure'], item['values'])
+    r = sxrun.run_concrete(mod.run, item['structure'], item['values'], [item['label']])
     print(json.dumps({'label': item['label'], 'reproduced': item['label'] in r['failed'], 'failed': r['failed'],
                       'details': r['details'], 'error': r['error']}, indent=1))
     return 1 if item['label'] in r['failed'] else 0
@@ -193,7 +193,7 @@ def main(pid, tier, jobs=None):
     os.makedirs(os.path.join(REPLAY_DIR, pid), exist_ok=True)
     for lb in sorted(first_viol):
         cands = first_viol[lb][:3]
-        payload = [{'property': pid, 'structure': st, 'values': vals} for st, vals, _ in cands]
+        payload = [{'property': pid, 'structure': st, 'values': vals, 'hints': [lb]} for st, vals, _ in cands]
         try:
             rr = _replay_subprocess(payload)
         except Exception as e:
